@@ -173,7 +173,19 @@ fn check(c: &Case, st: &mut Stats) -> Result<(), String> {
         let mut rng = SplitMix::new(c.seed ^ 0xF00D);
         let extra = rng.below(c.t as u64) as usize;
         let f = (k as usize * c.t).saturating_sub(extra).max(1);
-        let obj = make_data(DataClass::Random, c.seed ^ 1, f);
+        // contents: random, constant, or periodic with the period of one (large) block, so that
+        // consecutive blocks can be byte-identical - packet IDs must not depend on the contents
+        let obj = match (c.seed >> 9) % 6 {
+            0 | 1 => make_data(DataClass::Random, c.seed ^ 1, f),
+            2 => make_data(DataClass::Zero, c.seed ^ 1, f),
+            3 => vec![(c.seed >> 20) as u8 | 0x80; f],
+            n => {
+                let period = if n == 4 { (k as usize).div_ceil(z) * c.t } else { c.t };
+                let one = make_data(DataClass::Random, c.seed ^ 1, period.max(1));
+                (0..f).map(|i| one[i % one.len()]).collect()
+            }
+        };
+        st.class_if((c.seed >> 9) % 6 >= 2 && z > 1, "object with Z>1 and constant or block-periodic contents");
         let ocfg = ObjectTransmissionInformation::new(f as u64, c.t as u16, z as u8, 1, 1);
         let oenc = Encoder::new(&obj, ocfg);
         let r = c.repair_per_block;
@@ -248,7 +260,7 @@ fn signature(_: &Case, msg: &str) -> String {
 }
 
 pub fn run(ctx: &Ctx, rep: &mut Report) {
-    rep.rule = "generated (K <= 300 quick / 5000 thorough, T <= 40 (one case in forty: T in {4097, 32768, 65535} on K <= 10), construction, window (s1,n1) from {0..50} / uniform up to 2^24-K / ending exactly at ESI 2^24-1, second window at offset -40..40, n <= 40 (one window in seven up to 1500 packets long), object with Z <= 5 blocks and r <= 6 (one in six: up to 300) repair packets per block). A second group ('longwindows') has K <= 40, T <= 4 and windows of 60 000..140 000 packets (weighted to 65 530..65 560 and 131 060..131 090), the second window over the tail of the first, and object lists with up to 66 000 repair packets per block. Oracle (metamorphic + structural): window == concatenation of single-packet requests; overlapping windows agree; payload IDs are (block, K+s+i); encoders from two generated plans, the cached plan and the generated construction are == and emit identical packets; get_encoded_packets(r) is, block by block, ESI 0..K-1 then K..K+r-1 with distinct IDs, payload length T and source payloads per the reference layout; ESI 2^24-1 is producible. Non-trivial = overlapping windows with s > 0 on a block with padding; distinct by (K,T,windows).".into();
+    rep.rule = "generated (K <= 300 quick / 5000 thorough, T <= 40 (one case in forty: T in {4097, 32768, 65535} on K <= 10), construction, window (s1,n1) from {0..50} / uniform up to 2^24-K / ending exactly at ESI 2^24-1, second window at offset -40..40, n <= 40 (one window in seven up to 1500 packets long), object with Z <= 5 blocks, contents random / constant / periodic with the period of one block or one symbol (so that consecutive blocks can be byte-identical), and r <= 6 (one in six: up to 300) repair packets per block). A second group ('longwindows') has K <= 40, T <= 4 and windows of 60 000..140 000 packets (weighted to 65 530..65 560 and 131 060..131 090), the second window over the tail of the first, and object lists with up to 66 000 repair packets per block. Oracle (metamorphic + structural): window == concatenation of single-packet requests; overlapping windows agree; payload IDs are (block, K+s+i); encoders from two generated plans, the cached plan and the generated construction are == and emit identical packets; get_encoded_packets(r) is, block by block, ESI 0..K-1 then K..K+r-1 with distinct IDs, payload length T and source payloads per the reference layout; ESI 2^24-1 is producible. Non-trivial = overlapping windows with s > 0 on a block with padding; distinct by (K,T,windows).".into();
     let kmax = ctx.tier.pick(300u32, 5000);
     let n = ctx.tier.pick(50_000u64, 400_000);
     rep.absorb("windows", run_sharded("C18", "windows", ctx.seed, n, 32, move || strategy(kmax), check, to_json, signature));
